@@ -22,6 +22,7 @@ import (
 	"encoding/json"
 	"fmt"
 	"io"
+	"net"
 	"net/http"
 	"net/http/httptest"
 	"net/url"
@@ -599,6 +600,7 @@ type hdClient struct {
 	mu     sync.Mutex
 	msgs   [][]byte
 	closed bool
+	half   bool // the server's write half of this connection was shut: the client reads EOF, the server still reads
 	gone   chan struct{}
 }
 
@@ -608,7 +610,9 @@ func (c *hdClient) reader() {
 		_, data, err := c.conn.ReadMessage()
 		if err != nil {
 			c.mu.Lock()
-			c.closed = true
+			if !c.half {
+				c.closed = true
+			}
 			c.mu.Unlock()
 			return
 		}
@@ -987,6 +991,39 @@ func (s *hdSystem) foreignRoomSession(id string, b int) bool {
 		return false
 	}
 	return sess.Backend().Id() != fmt.Sprintf("backend%d", b)
+}
+
+// breakWrites shuts the write half of the server's socket of connection idx: from now on every write of
+// the server to it fails, while the server keeps reading (it still believes the client connected).
+func (s *hdSystem) breakWrites(idx int) bool {
+	c := s.clients[idx]
+	if c == nil {
+		return false
+	}
+	var target *Client
+	s.hub.mu.RLock()
+	for _, hc := range s.hub.clients {
+		if cl, ok := hc.(*Client); ok && s.connIndex(cl) == idx {
+			target = cl
+		}
+	}
+	s.hub.mu.RUnlock()
+	if target == nil {
+		return false
+	}
+	c.mu.Lock()
+	c.half = true
+	c.mu.Unlock()
+	target.mu.Lock()
+	defer target.mu.Unlock()
+	if target.conn == nil {
+		return false
+	}
+	tcp, ok := target.conn.UnderlyingConn().(*net.TCPConn)
+	if !ok {
+		return false
+	}
+	return tcp.CloseWrite() == nil
 }
 
 // backendHasRoom: would Backend.AddSession accept one more client session right now?
